@@ -118,6 +118,12 @@ pub fn update_position_reply(
 
             margin_delta = realized_pnl;
             new_direction = position.direction.clone();
+            // what is left of the position cannot have a negative open notional (storing the
+            // magnitude would move the position's remaining PnL by twice that amount)
+            if remaining_notional.is_negative() {
+                return Err(StdError::generic_err("Value of open notional <= 0"));
+            }
+
             new_notional = remaining_notional.value;
         }
     }
@@ -519,6 +525,10 @@ pub fn partial_close_position_reply(
     // set the new position
     position.size += signed_output;
     position.margin = margin;
+    if remaining_notional.is_negative() {
+        return Err(StdError::generic_err("Value of open notional <= 0"));
+    }
+
     position.notional = remaining_notional.value;
     position.last_updated_premium_fraction = latest_premium_fraction;
     position.block_number = env.block.height;
